@@ -19,7 +19,13 @@ import (
 	upgradekeeper "github.com/cosmos/cosmos-sdk/x/upgrade/keeper"
 	upgradetypes "github.com/cosmos/cosmos-sdk/x/upgrade/types"
 
+	"github.com/CosmWasm/wasmd/x/wasm"
 	sdk "github.com/cosmos/cosmos-sdk/types"
+	japp "github.com/jackalLabs/canine-chain/v4/app"
+	abci "github.com/tendermint/tendermint/abci/types"
+	"github.com/tendermint/tendermint/libs/log"
+	tmproto "github.com/tendermint/tendermint/proto/tendermint/types"
+	dbm "github.com/tendermint/tm-db"
 	mintkeeper "github.com/jackalLabs/canine-chain/v4/x/jklmint/keeper"
 	minttypes "github.com/jackalLabs/canine-chain/v4/x/jklmint/types"
 	mintutils "github.com/jackalLabs/canine-chain/v4/x/jklmint/utils"
@@ -278,6 +284,12 @@ func runC13(r *RunCtx) error {
 	if err := c13UpgradeChains(r); err != nil {
 		return err
 	}
+	if err := c13InitialHeightChains(r); err != nil {
+		return err
+	}
+	if err := c13PersistedTwin(r); err != nil {
+		return err
+	}
 	AddDecCases(r, r.Scale(120, 1500))
 	return nil
 }
@@ -445,5 +457,81 @@ func c13PrintModuleVersions() error {
 		return err
 	}
 	fmt.Println(string(js))
+	return nil
+}
+
+// c13InitialHeightChains: a chain that starts at an initial height above 1 (every chain restarted from a genesis
+// file does), driven through ABCI exactly as tendermint does: InitChain, then BeginBlock of the initial height itself,
+// EndBlock, Commit, and on.  From the very first block the supply must grow by the block's recorded emission, and
+// never by more than the block before.
+func c13InitialHeightChains(r *RunCtx) error {
+	setBech32()
+	for _, ih := range []int64{1, 2, 7, 100_000} {
+		home, err := os.MkdirTemp("", "verifc13")
+		if err != nil {
+			return err
+		}
+		app := japp.NewJackalApp(log.NewNopLogger(), dbm.NewMemDB(), nil, true, map[int64]bool{}, home, 0, japp.MakeEncodingConfig(), wasm.EnableAllProposals, japp.EmptyBaseAppOptions{}, nil)
+		sb, err := json.Marshal(japp.NewDefaultGenesisState())
+		if err != nil {
+			os.RemoveAll(home)
+			return err
+		}
+		trace := []map[string]interface{}{}
+		halted := ""
+		func() {
+			defer func() {
+				if x := recover(); x != nil {
+					halted = fmt.Sprint(x)
+				}
+			}()
+			app.InitChain(abci.RequestInitChain{ChainId: "verif", Time: T0, InitialHeight: ih, Validators: []abci.ValidatorUpdate{}, ConsensusParams: japp.DefaultConsensusParams, AppStateBytes: sb})
+			supply := func(h int64) int64 {
+				ctx := app.BaseApp.NewContext(true, tmproto.Header{Height: h, Time: T0, ChainID: "verif"})
+				return app.BankKeeper.GetSupply(ctx, "ujkl").Amount.Int64()
+			}
+			last := supply(ih) // the genesis supply (nothing is committed yet: the check state holds the genesis)
+			lastEm := int64(-1)
+			for b := int64(0); b < 6; b++ {
+				h := ih + b
+				hdr := tmproto.Header{Height: h, Time: T0.Add(time.Duration(b+1) * 6 * time.Second), ChainID: "verif"}
+				app.BeginBlock(abci.RequestBeginBlock{Header: hdr})
+				app.EndBlock(abci.RequestEndBlock{Height: h})
+				app.Commit()
+				now := supply(h)
+				em := now - last
+				last = now
+				desc := map[string]interface{}{"initial_height": ih, "height": h, "emission": em}
+				ctx := app.BaseApp.NewContext(true, hdr)
+				var rec *int64
+				if mb, found := app.MintKeeper.GetMintedBlock(ctx, h); found {
+					v := mb.Minted
+					rec = &v
+				}
+				desc["record"] = rec
+				trace = append(trace, desc)
+				bad := func(sig, what string) { r.Finding(sig, what, map[string]interface{}{"trace": trace}) }
+				if em < 0 {
+					bad("C13/emission-negative", "supply shrank in a block")
+				}
+				if lastEm >= 0 && em > lastEm {
+					bad("C13/emission-increased", fmt.Sprintf("emission %d at height %d larger than the previous block's %d (chain started at height %d)", em, h, lastEm, ih))
+				}
+				if rec == nil || *rec != em {
+					bad("C13/record-mismatch", fmt.Sprintf("MintedBlock of block %d differs from the supply growth %d (chain started at height %d)", h, em, ih))
+				}
+				if lastEm >= 0 {
+					r.Case("mint", fmt.Sprintf("MintFn %s %s %s %s", cZ(lastEm), cZ(c13Bpy), cZ(minttypes.DefaultParams().MintDecrease), cZ(em)), desc)
+				}
+				r.Count(fmt.Sprintf("initial-height-chain:%d:%d", ih, b), true)
+				r.Hist("initial-height-chain", fmt.Sprintf("initial_height=%d", ih))
+				lastEm = em
+			}
+		}()
+		os.RemoveAll(home)
+		if halted != "" {
+			r.Finding("C13/initial-height-chain/panic", "a chain started at height "+fmt.Sprint(ih)+" halted: "+halted, map[string]interface{}{"trace": trace})
+		}
+	}
 	return nil
 }
